@@ -2,6 +2,6 @@ INIT Init
 NEXT Next
 CONSTANTS
   Boxes <- MCBoxes
-  R = 6
+  R = 5
 INVARIANTS Lemmas
 CHECK_DEADLOCK FALSE
